@@ -323,7 +323,7 @@ def run(R):
             if not alive and n > len(prefix):
                 continue
             seqs.append((n, prefix, 'ok' if alive else 'raised'))
-    gm = chrun.gen_module('C21_conditions', C21_template.source(sweeps, seqs, H.K, H.MAXS, nreps))
+    gm = chrun.gen_module(f'C21_conditions_{R.tier}', C21_template.source(sweeps, seqs, H.K, H.MAXS, nreps))
     targets = [f'{gm}.sweep{t}_{lo}_{hi}' for t, lo, hi in sweeps]
     targets += [f'{gm}.sweep{t}_reach_{w}' for t in ts for w in ('ok', 'raised')]
     tag = C21_template.seq_tag
